@@ -110,7 +110,7 @@ CHECKS.update({
             'text': _LINE + 'after every event a processor with a part in process must hold exactly its declared amounts, each pool usage must '
                     'equal the sum of the declarations of the holders (plus external holders), a failed processor holds nothing, a processor in '
                     'maintenance with a part keeps its resources, and when time advances no idle operational processor holds any.'},
-    'C15': {'harnesses': ['harness.line_jobs'],
+    'C15': {'harnesses': ['harness.line_jobs'], 'lemmas': 'c15',
             'text': _LINE + 'after every event the last level / resource_update records equal the live state, record counts equal the occurrences '
                     'observed through callbacks and state transitions (received, produced, supplied, failure, work orders), records carry the '
                     'current time and the part id/quality/value of that moment, device counters equal record counts, and an enabled trace '
@@ -153,6 +153,7 @@ TECHNIQUE = {
     'C05': _T + '; plus AST->SMT (QF_BVFP) translation of the IEEE-754 delay guard, 2-ulp bound proved by cvc5 (1-ulp version shown sat)',
     'C19': _T + '; plus a QF_FP query (z3) for float intervals on which k*iv differs from repeated addition, replayed on the real sensor (witness check)',
     'C09': _T + '; plus QF_FP queries (z3) for fractional amounts whose add/subtract round trip leaves a residue, replayed on the real ResourceManager (witness check)',
+    'C15': _T + '; plus QF_FP queries (z3) for fractional amounts with an inexact sum, replayed on the real ResourceManager and its records (witness check)',
     'C12': _T + '; plus QF_FP queries (z3) for fractional needed capacities whose add/subtract round trip is inexact, replayed on the real Maintainer (witness check)',
     'C14': _T + '; the second run / the unsplit run replays the same symbolic tie-break weights; object hashes controlled by the harness',
     'C04': _T + '; reference recurrence built as z3 max-terms and compared by validity queries',
